@@ -45,7 +45,7 @@ def kahn_rules(rep, prog, f, S):
     lists = [k for k, v in state.items() if v == ("list", ())]
     work = [k for k in state if k not in mats and k not in lists]
     if len(mats) == 0 and len(lists) == 1 and len(work) == 1:
-        rep.bad("KAHN.remove-edge", fwhere(f, w["node"]), "the working matrix is never updated inside the loop: visited edges are not removed, so no child ever becomes ready")
+        rep.bad_form("KAHN.remove-edge", fwhere(f, w["node"]), "the working matrix is never updated inside the loop: visited edges are not removed, so no child ever becomes ready")
         return
     deg_ = None
     if len(mats) == 1 and len(lists) == 1 and len(work) == 2:
@@ -474,7 +474,7 @@ def run(prog, rep, tier):
             continue
         f = need(prog, q)
         if attr not in obj.attrs:
-            rep.bad("PAT.ordering", fwhere(f), "constructor no longer stores a topological ordering in self.%s" % attr)
+            rep.bad_form("PAT.ordering", fwhere(f), "constructor no longer stores a topological ordering in self.%s" % attr)
         else:
             lvl = PT.lvl_of(obj.attrs[attr])
             rep.check("PAT.ordering", lvl <= PT.PAT, fwhere(f), "stored ordering self.%s is pattern-only" % attr,
@@ -501,7 +501,7 @@ def run(prog, rep, tier):
     cs = [c for c in S3.select("call", qname=f3.qname) if c.target == U + "topological_ordering"
           and c.args and derives_patternwise(c.args[0], "A")]
     if not cs:
-        rep.bad("GATE.anm", fwhere(f3), "ANM.__init__ does not run topological_ordering on A")
+        rep.bad_form("GATE.anm", fwhere(f3), "ANM.__init__ does not run topological_ordering on A")
     else:
         c = cs[0]
         handled = any(t in ("*", "ValueError", "Exception", "BaseException") for _, ts in getattr(c, "in_try", []) for t in ts)
@@ -521,7 +521,7 @@ def run(prog, rep, tier):
         elif st:
             rep.unk("GATE.anm.stored", fwhere(f3), "no attribute `A` is stored; which of %s is the matrix the sampler reads is not decided" % sorted({s.attr for s in st}))
         else:
-            rep.bad("GATE.anm.stored", fwhere(f3), "the constructor stores nothing derived from the checked matrix")
+            rep.bad_form("GATE.anm.stored", fwhere(f3), "the constructor stores nothing derived from the checked matrix")
     # DRFNet delegates to BayesianNetwork.__init__ with the same graph, first thing
     f4 = need(prog, "sempler.semi.DRFNet.__init__")
     S4 = Sym(prog)
